@@ -10,7 +10,9 @@ RULE = ('All directed descriptions (every order x every orientation) of all simp
         '<= D wires on the 5-point (thorough: also 7-point) lattice x all segment-count vectors from '
         '{1,2,3}^n, in free space and over ideal ground (two lattice points on the plane), plus end-point '
         'perturbations of 0.4/0.99/1.01/2.5 e-3 of the shortest segment in 3 directions on every wire end that '
-        'takes part in a junction, plus two-ends-perturbed triples (thorough). A state is the undirected '
+        'takes part in a junction, plus two-ends-perturbed triples (thorough), plus every orientation of every connected-'
+        'somewhere graph with each wire in turn described elsewhere (on another wire\'s far end / far away / scaled / rotated) '
+        'and brought into place by a per-tag transformation option through main(). A state is the undirected '
         'structure (edge set, segment counts, environment, perturbation); a transition is one description '
         'of it that is built with the real constructor. Non-trivial: the structure has at least one '
         'junction or grounded end (pulse count differs from sum(segments-1)).')
@@ -41,6 +43,25 @@ def cases(tier, seed):
                     edges = [list(es[i][::-1] if flips[k] else es[i]) for k, i in enumerate(order)]
                     yield dict(env='ideal' if ground else 'free', f=f, pts=pts, edges=edges,
                                segsets=[[s[i] for i in order] for s in segsets])
+        # one wire described elsewhere and brought into place by a per-tag --geo-translate/-scale/-rotate through main():
+        # elsewhere = with an end on the far end of another wire (a junction that must vanish), or far away
+        for es in geom.edge_sets(5, D):
+            n = len(es)
+            used = sorted(set(v for e in es for v in e))
+            if n < 2 or len(used) == 2 * n:
+                continue
+            for flips in itertools.product((0, 1), repeat=n):
+                edges = [list(es[i][::-1] if flips[i] else es[i]) for i in range(n)]
+                for k in range(n):
+                    mv = [dict(wire=k, how='translate', d=[3 * lam, 2 * lam, 0. if ground else -lam])]
+                    if not ground:
+                        mv += [dict(wire=k, how='scale'), dict(wire=k, how='rotate')]
+                    for q in used:
+                        for e in (0, 1):
+                            if q not in edges[k] and abs(pts[q][2] - pts[edges[k][e]][2]) < 1e-12:
+                                mv.append(dict(wire=k, how='translate', d=list(np.array(pts[edges[k][e]]) - np.array(pts[q]))))
+                    for m_ in mv:
+                        yield dict(env='ideal' if ground else 'free', f=f, pts=pts, edges=edges, segsets=[[2] * n, [1, 3, 2][:n]], moved=m_)
         # perturbed ends: one end of one wire moved by d*Lmin in 3 directions
         dirs = [(1, 0, 0), (0, 0.6, 0.8), (-0.57735, 0.57735, 0.57735)]
         for es in geom.edge_sets(5, 2 if tier == 'quick' else 3, dmin=2):
@@ -292,9 +313,24 @@ def evaluate(c):
         N, junc, gnd, free, amb = topo.expected_count(case, ground)
         und = sorted((tuple(sorted(e)), s) for e, s in zip(c['edges'], segs))
         cn = '%s|%s|%s|%s' % (c['env'], und, c.get('perturb'), c.get('perturb2'))
+        if 'moved' in c:
+            mv = c['moved']
+            cn += '|moved%d:%s%s' % (mv['wire'], mv['how'], [round(x, 6) for x in mv.get('d', [])])
         both = any(sum(1 for (wi, e) in gnd if wi == i) == 2 for i in range(len(case['wires'])))
         try:
-            m = geom.build(case, sources=False, loads=False)
+            if 'moved' in c:
+                from mcx import cli
+                m, diag = cli.build_moved(case, c['moved']['wire'], c['moved'].get('d'), c['moved']['how'])
+                if m is None:
+                    if both:
+                        skips['both-ends-grounded(rejected)'] = skips.get('both-ends-grounded(rejected)', 0) + 1
+                    elif N == 0:
+                        skips['no-pulse'] = skips.get('no-pulse', 0) + 1
+                    else:
+                        viol.append(('REJECTED-moved', 'valid structure rejected when wire %d is moved into place by %s: %s' % (c['moved']['wire'] + 1, c['moved']['how'], diag)))
+                    continue
+            else:
+                m = geom.build(case, sources=False, loads=False)
         except ValueError as e:
             if both and 'Both ends' in str(e):
                 skips['both-ends-grounded(rejected)'] = skips.get('both-ends-grounded(rejected)', 0) + 1
@@ -305,6 +341,8 @@ def evaluate(c):
             skips['both-ends-grounded(accepted)'] = skips.get('both-ends-grounded(accepted)', 0) + 1
             continue
         vv, N, junc, gnd = check_model(m, case, ground)
+        if 'moved' in c:
+            vv = [(s_ + '-moved', msg + ' [wire %d moved into place by --geo-%s]' % (c['moved']['wire'] + 1, c['moved']['how'])) for s_, msg in vv]
         if amb:
             vv = [('AMBIGUOUS-' + s, msg) for s, msg in vv]
         viol += vv
